@@ -94,6 +94,23 @@ def extract_table(ctx, unit):
         if key in table and table[key] != k:
             problems.append(("ambiguous", sel, "%s vs %s" % (table[key], k)))
         table[key] = k
+    if problems or any((a, b_) not in table for a in variants for b_ in variants):
+        # the same table written differently (nested matches, a private factor function, ...): evaluate convert for every
+        # concrete (from, to) pair by partial evaluation
+        table2, problems2 = {}, []
+        for a in variants:
+            for b_ in variants:
+                rt = spec_eval(F, body, {1: a, 3: b_})
+                if rt is None:
+                    problems2.append(("no-single-value", {"from": a, "to": b_}, "partial evaluation does not give one value"))
+                    continue
+                k = A.ev(rt).linear_factor("v")
+                if k is None:
+                    problems2.append(("non-linear", {"from": a, "to": b_}, short(rt)[:80]))
+                    continue
+                table2[(a, b_)] = k
+        if not problems2:
+            return body, variants, table2, []
     return body, variants, table, problems
 
 
@@ -239,6 +256,17 @@ def quotient_impl(ctx, path, num_idx, den_idx, inst, op="Div"):
     ctx.check(r.equals(want), inst, "%s computes %r, expected %r" % (path, r, want), b.where(), detail=repr(r))
 
 
+def is_conv_to(q, target, sources):
+    """q is `x.into()` / `Target::from(x)` converting a tuple of the given source quantities into the target quantity"""
+    if q[0] != "call":
+        return False
+    k = q[1]
+    src = r"\(.*" + r", .*".join(re.escape(x) for x in sources) + r"\)"
+    if "::into{" in k and k.endswith(target + "}") and re.search(src, k):
+        return True
+    return re.search(r"<.*" + re.escape(target) + r" as std::convert::From<" + src + r">>::from(\{.*\})?$", k) is not None
+
+
 def R4_constructors(ctx):
     """C09.R4 create_time / create_speed / create_energy"""
     F = ctx.F
@@ -263,7 +291,7 @@ def R4_constructors(ctx):
             ctx.check(ok, "create_time:final-conversion", "result is not BASE_TIME_UNIT.convert(time, time_unit): %s" % short(val), b.where(), detail=short(val))
             if ok:
                 q = val[2][1]
-                okq = q[0] == "call" and "::into{" in q[1] and q[1].endswith("time::Time}") and q[2] == (("tuple", (d, s)),)
+                okq = is_conv_to(q, "time::Time", ["distance::Distance", "speed::Speed"]) and q[2] == (("tuple", (d, s)),)
                 ctx.check(okq, "create_time:quotient-args", "time is not built from (distance_in_base, speed_in_base): %s" % short(q), b.where(), detail=short(q))
     ctx.check(n_ok >= 1, "create_time:has-ok-path", "no Ok return found", b.where())
     quotient_impl(ctx, "<%stime::Time as std::convert::From<(%sdistance::Distance, %sspeed::Speed)>>::from" % (U, U, U), 0, 1, "Time::from((d,s))=d/s")
@@ -285,7 +313,7 @@ def R4_constructors(ctx):
             ctx.check(ok, "create_speed:final-conversion", "result is not BASE_SPEED_UNIT.convert(speed, speed_unit): %s" % short(val), b.where(), detail=short(val))
             if ok:
                 q = val[2][1]
-                okq = q[0] == "call" and "::into{" in q[1] and q[1].endswith("speed::Speed}") and q[2] == (("tuple", (d, t)),)
+                okq = is_conv_to(q, "speed::Speed", ["distance::Distance", "time::Time"]) and q[2] == (("tuple", (d, t)),)
                 ctx.check(okq, "create_speed:quotient-args", "speed is not built from (distance_in_base, time_in_base): %s" % short(q), b.where(), detail=short(q))
     ctx.check(n_ok >= 1, "create_speed:has-ok-path", "no Ok return found", b.where())
     quotient_impl(ctx, "<%sspeed::Speed as std::convert::From<(%sdistance::Distance, %stime::Time)>>::from" % (U, U, U), 0, 1, "Speed::from((d,t))=d/t")
@@ -302,7 +330,7 @@ def R4_constructors(ctx):
         reu = ("call", U + "energy_rate_unit::EnergyRateUnit::associated_energy_unit", (("arg", 2),))
         ctx.check(u == reu, "create_energy:unit", "returned unit is not energy_rate_unit.associated_energy_unit(): %s" % short(u), b.where(), detail=short(u))
         cd = ("call", U + "distance_unit::DistanceUnit::convert", (("arg", 4), ("arg", 3), rdu))
-        okq = e[0] == "call" and "::into{" in e[1] and e[1].endswith("energy::Energy}") and e[2] == (("tuple", (("arg", 1), cd)),)
+        okq = is_conv_to(e, "energy::Energy", ["energy_rate::EnergyRate", "distance::Distance"]) and e[2] == (("tuple", (("arg", 1), cd)),)
         ctx.check(okq, "create_energy:product-args", "energy is not built from (rate, distance converted to the rate's distance unit): %s" % short(e), b.where(), detail=short(e))
     quotient_impl(ctx, "<%senergy::Energy as std::convert::From<(%senergy_rate::EnergyRate, %sdistance::Distance)>>::from" % (U, U, U), 0, 1, "Energy::from((r,d))=r*d", op="Mul")
     # ---- thin wrappers pass their arguments through in order
